@@ -19,13 +19,15 @@ CLAIMS = {
              'the tracing translator is trusted but its output is compared with the real functions on every operand combination on every run.'),
     'C01': dict(
         technique='Coq proof that the scheduler\'s op list, executed gate by gate, satisfies every node\'s equation for all well-formed acyclic netlists (+ uniqueness), over regenerated LUT/dispatch tables; memory map by certificate; exact correspondence; gate-by-gate oracle',
-        text='Proof (scheduler level full, memory level by certificate). Proved for all inputs: every LUT constant equals its primitive\'s '
+        text='Proof (default options end to end; with c_reuse/strip_forks the memory level goes by certificate). Proved for all inputs: every LUT constant equals its primitive\'s '
              'Boolean function; both 2-valued dispatch copies (re-traced from the source on every run) compute it per lane; primitive '
              'selection; opcode injectivity; lane independence for any batch size; and the MAIN theorem: for EVERY well-formed, '
              'combinationally acyclic netlist and EVERY stimulus the op list that SimOps builds (Kahn order, interface BUF/INV ops, forks, '
              'LUT selection by kind prefix and connected pins, zero slot for unconnected pins), executed gate by gate in any value domain, '
-             'yields a valuation satisfying every node\'s equation, and solutions are unique. The flat-memory execution equals the '
-             'line-level one for every map passing the ownership certificate (C08_map_check_sound); the certificate, the executable twin of '
+             'yields a valuation satisfying every node\'s equation, and solutions are unique. END TO END for the default options '
+             '(C01_end_to_end_default): build() always succeeds, and the flat memory it lays out, after running the ops it schedules, '
+             'holds at every observed slot the value of the driving line in that unique solution. For c_reuse/strip_forks the flat-memory '
+             'execution equals the line-level one for every map passing the ownership certificate (C08_map_check_sound); the certificate, the executable twin of '
              'the main theorem and the models of SimOps/LogicSim (ops, levels, c_locs, s[0], s[1] after k cycles) are evaluated / compared '
              'on every generated circuit, plus an independent evaluator.',
         design_ref='5/C01',
@@ -110,7 +112,9 @@ CLAIMS = {
              'aliasing, total size) is modelled (Model/SimOps.v uses the Heap model) and tied by correspondence; a checkable ownership '
              'certificate is proved sound (a map that passes it makes flat-memory execution equal line-level execution at every observed '
              'slot) and evaluated on the model\'s result for every generated circuit; an independent liveness checker runs on the '
-             'implementation\'s tables. That build() always passes the certificate is not yet a theorem.',
+             'implementation\'s tables. For the default options (c_reuse off) build() is PROVED to pass the certificate on every well-formed '
+             'netlist of known primitives (C08_build_passes_certificate; the side condition is proved necessary); with c_reuse on it is '
+             'evaluated per case.',
         design_ref='5/C08',
         note='Modelled not verified: sim.Heap and SimOps.__init__ are hand transcriptions.'),
     'C13': dict(
